@@ -1054,6 +1054,287 @@ def check_path_scheme(ck):
           "a listing walks into %r: version objects appear as keys" % vlit, ls.where())
     check_escape_inverse(ck, R)
     check_strip_is_not_prefix_removal(ck, R)
+    check_created_paths(ck, R)
+
+
+# ---- what the filesystem data source creates is what its deleter removes --------------------------------------------
+SCHEME_BUILDERS = ("_get_non_versioned_link_path", "_get_path_versioned")
+_TEMP_MAKERS = ("mkstemp", "mkdtemp", "NamedTemporaryFile")
+_TWO_PATH_FUNCS = {"os.replace", "os.rename", "os.renames", "os.link", "os.symlink", "shutil.move", "shutil.copy", "shutil.copy2", "shutil.copyfile"}
+_MOVE_FUNCS = {"os.replace", "os.rename", "os.renames", "shutil.move"}
+_UNLINK_FUNCS = {"os.unlink", "os.remove", "os.rmdir", "shutil.rmtree"}
+_OS_ERRORS = ("OSError", "IOError", "EnvironmentError", "Exception", "BaseException")
+
+
+def _strip_path_wrappers(e):
+    """str(P) / Path(P) / os.fspath(P) / P.resolve() / P.absolute() -> P"""
+    while True:
+        if isinstance(e, ast.Call) and not e.keywords and len(e.args) == 1 and A.call_attr(e) in ("str", "Path", "PurePath", "fspath", "fsencode"):
+            e = e.args[0]
+        elif isinstance(e, ast.Call) and not e.args and not e.keywords and A.call_attr(e) in ("resolve", "absolute") and isinstance(e.func, ast.Attribute):
+            e = e.func.value
+        else:
+            return e
+
+
+def _canon_strings(e):
+    """every string-building sub-expression (format / f-string / % / +) as one left-associated concatenation"""
+    class T(ast.NodeTransformer):
+        def visit(self, n):
+            if isinstance(n, (ast.JoinedStr, ast.BinOp, ast.Call)):
+                parts = A.str_parts(n)
+                if parts and len(parts) > 1 and not all(k == "expr" and v is n for (k, v) in parts):
+                    out = None
+                    for (k, v) in parts:
+                        node = ast.Constant(value=v) if k == "lit" else (self.visit(v) if v is not n else v)
+                        out = node if out is None else ast.BinOp(left=out, op=ast.Add(), right=node)
+                    return out
+            return self.generic_visit(n)
+    import copy
+    return T().visit(copy.deepcopy(e))
+
+
+def _inline_own_builders(ck, cls, e, depth=0):
+    """calls of single-return methods of `cls` (self.m(..) / cls.m(..) / Class.m(..)) replaced by what they return"""
+    import copy
+
+    class T(ast.NodeTransformer):
+        def visit_Call(self, n_):
+            self.generic_visit(n_)
+            f = n_.func
+            if depth < 4 and isinstance(f, ast.Attribute) and isinstance(f.value, ast.Name) and f.value.id in ("self", "cls", cls.name) and f.attr in cls.methods:
+                m = cls.methods[f.attr]
+                rets = [s_ for s_ in A.all_stmts(m.node) if isinstance(s_, ast.Return) and s_.value is not None]
+                if len(rets) == 1 and not any(isinstance(x, (ast.Yield, ast.YieldFrom)) for x in A.walk_body(m.node)):
+                    try:
+                        body = FA(ck, m).expand(rets[0].value)
+                    except AnalysisError:
+                        return n_
+                    bound = _bind(n_, m.params)
+                    if set(p_ for p_ in m.params if p_ != "self") - set(bound):
+                        return n_
+
+                    class S(ast.NodeTransformer):
+                        def visit_Name(self, x_):
+                            return copy.deepcopy(bound[x_.id]) if x_.id in bound and isinstance(x_.ctx, ast.Load) else x_
+
+                    return _inline_own_builders(ck, cls, S().visit(body), depth + 1)
+            return n_
+
+    return T().visit(copy.deepcopy(e))
+
+
+def _unify(t, e, holes, bind) -> bool:
+    """does expression `e` instantiate template `t` (Names in `holes` stand for any sub-expression, consistently)?"""
+    if isinstance(t, ast.Name) and t.id in holes:
+        txt = A.norm(e)
+        if t.id in bind:
+            return bind[t.id] == txt
+        bind[t.id] = txt
+        return True
+    if type(t) is not type(e):
+        return False
+    for f in t._fields:
+        a, b = getattr(t, f, None), getattr(e, f, None)
+        if isinstance(a, list):
+            if not isinstance(b, list) or len(a) != len(b):
+                return False
+            for x, y in zip(a, b):
+                if isinstance(x, ast.AST):
+                    if not isinstance(y, ast.AST) or not _unify(x, y, holes, bind):
+                        return False
+                elif x != y:
+                    return False
+        elif isinstance(a, ast.AST):
+            if not isinstance(b, ast.AST) or not _unify(a, b, holes, bind):
+                return False
+        elif f not in ("kind", "type_comment") and a != b:
+            return False
+    return True
+
+
+class SchemePaths:
+    """The paths under which the filesystem data source keeps a key: its link and its version objects (and the
+    metadata beside them).  These are what `delete_all_versions` / the version scan remove.  A path expression is a
+    scheme path when it is the result of one of the two builders, or spells out what a builder returns."""
+
+    def __init__(self, ck):
+        self.ck = ck
+        self.cls = ck.repo.cls(FSDS)
+        self.templates = []
+        for b in SCHEME_BUILDERS:
+            m = self.cls.methods.get(b)
+            if m is None:
+                continue
+            fa = FA(ck, m)
+            holes = set(p_ for p_ in m.params if p_ != "self")
+            for r in fa.returns():
+                if r.value is None:
+                    continue
+                body = safe_expand(fa, r.value, r)
+                self.templates.append((_canon_strings(_inline_own_builders(ck, self.cls, body)), holes))
+        ck.need(self.templates, "%s: the link / version path builders are gone" % FSDS)
+
+    def is_scheme(self, e) -> bool:
+        e = _strip_path_wrappers(e)
+        if isinstance(e, ast.Call) and A.call_attr(e) in SCHEME_BUILDERS and isinstance(e.func, ast.Attribute) \
+                and isinstance(e.func.value, ast.Name) and e.func.value.id in ("self", "cls", self.cls.name):
+            return True
+        x = _canon_strings(_inline_own_builders(self.ck, self.cls, e))
+        return any(_unify(t, x, holes, {}) for (t, holes) in self.templates)
+
+
+def _created_paths(fa: FA):
+    """File-creating sites of `fa`: [(call, created path expression or None for a scratch maker, kind)]."""
+    from ..callgraph import _open_mode_writes
+    out = []
+    for c in fa.calls():
+        nm, d = A.call_attr(c), A.call_dotted(c) or ""
+        if nm == "open" and d != "os.open":
+            if _open_mode_writes(c):
+                if isinstance(c.func, ast.Name) or d in ("io.open", "codecs.open"):
+                    p_ = A.arg_or_kw(c, 0, "file")
+                else:
+                    p_ = A.call_recv(c)
+                if p_ is not None:
+                    out.append((c, p_, "opens for writing"))
+        elif d == "os.open":
+            if c.args:
+                out.append((c, c.args[0], "opens"))
+        elif nm in ("write_text", "write_bytes", "touch") and isinstance(c.func, ast.Attribute):
+            out.append((c, c.func.value, "writes"))
+        elif d in _TWO_PATH_FUNCS and len(c.args) >= 2:
+            out.append((c, c.args[1], "moves / copies a file to"))
+        elif nm in ("rename", "replace", "symlink_to", "link_to", "hardlink_to") and isinstance(c.func, ast.Attribute) and len(c.args) == 1 and not c.keywords \
+                and not d.startswith(("os.", "shutil.")):
+            # pathlib: P.rename(target) / P.replace(target); str.replace takes two arguments
+            out.append((c, c.args[0], "moves a file to"))
+        elif nm in _TEMP_MAKERS and A.kwarg(c, "dir") is not None:
+            if nm == "NamedTemporaryFile":
+                dl = A.kwarg(c, "delete")
+                if not (isinstance(dl, ast.Constant) and dl.value is False):
+                    continue   # removed when it is closed
+            out.append((c, None, "creates a scratch file"))
+    return out
+
+
+def check_created_paths(ck, R):
+    """Everything the filesystem data source leaves under the store is named by the key scheme -- the key's link or a
+    version object under the versions directory -- because those are the only names the deleter (and hence forget)
+    removes and the listings hide; any other file in a function's directory keeps that directory from ever being
+    pruned, so the function stays listed with no live entry.  A scratch file (created under another name) is
+    therefore either moved onto a scheme path or unlinked on EVERY way out of the method, failures included: the
+    question is asked on the CFG with exceptional edges."""
+    sp = SchemePaths(ck)
+    cls = sp.cls
+    n_sites = 0
+    for name, m in cls.methods.items():
+        fa = FA(ck, m, exc_mode="all")
+        sites = _created_paths(fa)
+        if not sites:
+            continue
+        cfg = fa.cfg
+
+        def ref_text(e, at):
+            return A.norm(_strip_path_wrappers(safe_expand(fa, e, at)))
+
+        for (c, p_, what) in sites:
+            n_sites += 1
+            if p_ is not None:
+                pe = safe_expand(fa, p_, c)
+                if sp.is_scheme(pe):
+                    ck.ob(R, fa.key(c, "created-path-in-scheme"), True, "%s the key's link / version object" % what, fa.where(c))
+                    continue
+                me = ref_text(p_, c)
+            else:
+                me = None
+            maker = A.call_attr(c) if p_ is None else None
+
+            def refers(e, at):
+                """does `e` (an argument of a later call) name the scratch file created at `c`?"""
+                if e is None:
+                    return False
+                if me is not None and ref_text(e, at) == me:
+                    return True
+                if maker is not None:
+                    try:
+                        return bool(fa.nodes(at)) and ("call:" + maker) in fa.deps(e)
+                    except AnalysisError:
+                        return False
+                return False
+
+            unlinks, moves = [], []
+            for k in fa.calls():
+                d = A.call_dotted(k) or ""
+                nm = A.call_attr(k)
+                if d in _UNLINK_FUNCS and k.args and refers(k.args[0], k):
+                    unlinks.append(k)
+                elif nm in ("unlink", "rmdir") and isinstance(k.func, ast.Attribute) and not d.startswith("os.") and refers(k.func.value, k):
+                    unlinks.append(k)
+                elif d in _MOVE_FUNCS and len(k.args) >= 2 and refers(k.args[0], k) and sp.is_scheme(safe_expand(fa, k.args[1], k)):
+                    moves.append(k)
+                elif nm in ("rename", "replace") and isinstance(k.func, ast.Attribute) and len(k.args) == 1 and not d.startswith(("os.", "shutil.")) \
+                        and refers(k.func.value, k) and sp.is_scheme(safe_expand(fa, k.args[0], k)):
+                    moves.append(k)
+            starts = fa.nodes(c)
+            un, mv = set(fa.nodes_all(unlinks)), set(fa.nodes_all(moves)) - set(starts)
+            gone = branch_filter(fa, lambda t, p: (not p) and ("exists(" in t or "isfile(" in t or "is_file(" in t))
+            contained = _os_error_contained(fa)
+
+            def edge_ok(s_, d_, l_):
+                if s_ in starts and l_ == "exc":
+                    return False    # the creation itself failed: nothing was created
+                if s_ in mv and l_ != "exc":
+                    return False    # moved onto its scheme path: disposed of
+                if l_ == "exc" and cfg.node(s_).kind == "test" and cfg.node(s_).ast is not None and \
+                        all(A.call_attr(k_) in ("exists", "lexists", "isfile", "is_file") for k_ in A.calls_in(cfg.node(s_).ast)):
+                    return False    # os.path.exists & co. answer False instead of raising
+                return gone(s_, d_, l_) and contained(s_, d_, l_)
+
+            r = cfg.reach(starts, removed=un, edge_ok=edge_ok, include_start=False) if starts else set()
+            leaks = [x for x in (cfg.exit, cfg.raise_exit) if x in r]
+            ok = bool(starts) and not leaks
+            how = "returns" if cfg.exit in leaks else "fails (an I/O error while it is written or moved into place)"
+            ck.ob(R, fa.key(c, "created-path-in-scheme"), ok,
+                  "the scratch file is moved onto the key's link / version path or unlinked on every way out" if ok else
+                  "%s %s `%s`, which is neither the key's link nor a version object, and can leave it behind when the method %s: the deleter "
+                  "removes links and version objects only and forget_call selects by the call's file prefix, so the stray file keeps the function's "
+                  "directory from being pruned and the function stays listed after all of its calls were forgotten"
+                  % (m.name, what, A.short(p_ if p_ is not None else c, 60), how), fa.where(c))
+    ck.ob(R, "%s::created-paths::scan" % FSDS, n_sites >= 2, "%d file-creating sites in the filesystem data source" % n_sites if n_sites >= 2 else
+          "the filesystem data source creates fewer files than its link and its version object (%d sites found)" % n_sites, A.loc(cls, cls.node))
+
+
+def _os_error_contained(fa: FA):
+    """edge_ok: an I/O failure raised inside the body of a `try` that has a handler for OSError (or broader) goes to the
+    handlers of that try, not past them (the CFG sends an exception to every handler AND outward unless the handler is
+    `except Exception` / bare)."""
+    cfg = fa.cfg
+
+    def broad(h):
+        if h.type is None:
+            return True
+        ts = h.type.elts if isinstance(h.type, ast.Tuple) else [h.type]
+        return any((A.dotted(t) or "").split(".")[-1] in _OS_ERRORS for t in ts)
+
+    tries = [t for t in ast.walk(fa.node) if isinstance(t, ast.Try) and any(broad(h) for h in t.handlers)]
+
+    def edge_ok(s, d, l):
+        if l != "exc":
+            return True
+        sa_ = cfg.node(s).ast
+        if sa_ is None or sa_ not in fa.pm and not isinstance(sa_, ast.stmt):
+            return True
+        for t in tries:
+            if any(fa.inside(sa_, b) for b in t.body):
+                da = cfg.node(d).ast
+                if da is None:
+                    return False
+                if da in fa.pm and not fa.inside(da, t):
+                    return False
+        return True
+
+    return edge_ok
 
 
 def _walkers(ck, ls: FA):
